@@ -100,6 +100,9 @@ def registry_restore(snap):
             cur[cat].update(mp)
 
 
+SCOPE_JUNK = [{}, {"type": 5}, {"type": None}, {"a": 1}, {"type": {}}, [], ["file"], 0, None, True, "", 1.5, {"type": "file"}]
+
+
 def make_junk(spec):
     """Depth-parameterised nesting built outside the JSON case (keeps replay files small)."""
     if isinstance(spec, dict) and "$nest" in spec:
@@ -127,6 +130,9 @@ def call(entry, payload, ver, valid_refs=None):
             return core.guarded(cls, _valid_refs=dict(valid_refs), **{k: v for k, v in payload.items() if k != "type"})
         if entry == "parse-text":
             return core.guarded(stix2.parse_observable, json.dumps(payload), dict(valid_refs), allow_custom=False, version=ver)
+        if entry == "parse-inline-refs":
+            # the scope travelling inside the document itself (the observable classes take a "_valid_refs" member of the content)
+            return core.guarded(stix2.parse, json.dumps(dict(payload, _valid_refs=valid_refs)), allow_custom=False)
         return core.guarded(stix2.parse_observable, payload, dict(valid_refs), allow_custom=entry == "parse-custom", version=ver)
     if entry == "parse":
         return core.guarded(stix2.parse, payload, allow_custom=False)
@@ -592,6 +598,18 @@ def run(ctx):
                         fails = check_case(case)
                         if fails is not None:
                             ctx.note(case, True, ["standalone-2.0-observable", "entry:" + case["entry"]], fp=core.fingerprint([member["type"], p, j, case["entry"]]))
+                            ctx.handle(case, fails)
+
+                # the scope itself is input: entries that are not the type names / objects the library expects
+                refd = [v for kk, v in member.items() if kk.endswith("_ref") and isinstance(v, str)] + \
+                       [x for kk, v in member.items() if kk.endswith("_refs") and isinstance(v, list) for x in v if isinstance(x, str)]
+                for k, junk in enumerate(SCOPE_JUNK):
+                    scope = {kk: junk for kk in (refd or list(refs))}
+                    for entry in (("parse_observable", "constructor", "parse-inline-refs")[(seed_i + k) % 3], "parse-inline-refs"):
+                        case = {"ver": ver, "doc": member, "valid_refs": scope, "entry": entry, "corruptions": []}
+                        fails = check_case(case)
+                        if fails is not None:
+                            ctx.note(case, bool(refd), ["standalone-2.0-observable:junk-scope", "entry:" + entry], fp=core.fingerprint([member["type"], "scope", k, entry]))
                             ctx.handle(case, fails)
 
     def body_faults(args):
